@@ -20,7 +20,7 @@ CHECKS = {
          'DESIGN.md §4 C07'),
  'C06': ('model_checking',
          'TLA+ machine specification (Z80!StepInt); TLC validates lock-step traces of both implementation pairs recorded through trace.py\'s own loops, step by step',
-         'Generated programs run one instruction at a time on Simulator+CSimulator and CMIOSimulator+CCMIOSimulator via the real trace loops (Python loop / CSimulator.trace) with interrupts; TLC replays each trace against Z80!StepInt (instruction + frame interrupt) and requires bit-identical registers, memory diffs and port logs inside each pair; one-call vs per-instruction execution of the loop must coincide.',
+         'Generated programs run one instruction at a time on Simulator+CSimulator and CMIOSimulator+CCMIOSimulator via the real trace loops (Python loop / CSimulator.trace) with interrupts; TLC replays each trace against Z80!StepInt (instruction + frame interrupt) and requires bit-identical registers, memory diffs and port logs inside each pair; one-call vs per-instruction execution of the loop must coincide; LDIR/LDDR/DJNZ programs (copies onto the instruction itself included) run as one run(start, stop) call on Simulator with fast_djnz/fast_ldir, plain Simulator and CSimulator are judged by FastRun.tla (Z80!Step iterated to the stop address).',
          'Programs are sampled (random + structured + 0xFFFF/frame-boundary edge programs; 128K programs with 0x7FFD histories judged by Machine128 = Z80 step + paging latch over physical pages); the timing of the contended pair is predicted too (uncontended duration + Z80Bus!ContendedDelay on the 48K / 128K layout, both readings of the OTIR/OTDR internal-cycle address); memory/port-log equality inside a pair is computed by the harness and passed to TLC as a flag; 128K runs that page bank 2/5 in at 0xC000 are judged for pair agreement, latch, ranges and ROM immutability only.',
          'DESIGN.md §4 C06'),
  'C08': ('model_checking',
